@@ -13,22 +13,22 @@ CHECKS = {
  "C02": dict(
    engine="E-fault single-fault enumerator (mc/src/c02.rs; nightly build)", cat="fault_enumeration", ref="DESIGN.md §3 C02",
    technique="exhaustive single-fault enumeration: every bit flip of every wire/nonce/key/header/AD component, every truncation, a stated extension family, for every base length, through every open form; verdict cross-checked with libsodium",
-   text="For each base case (4 families x lengths 0..=160 (400 thorough), plus long messages 1 KiB..16 KiB (256 KiB thorough) with a structural fault family) every member of the fault family is applied once and given to all open forms (29 AEAD incl. heap/locked containers + 2 stream); the control must be accepted with the original message and every fault rejected with Err (panic = violation).",
+   text="For each base case (4 families x lengths 0..=160 (400 thorough), plus long messages 1 KiB..16 KiB (256 KiB thorough) with a structural fault family) every member of the fault family is applied once and given to all open forms (29 AEAD incl. heap/locked containers + 2 stream); the control must be accepted with the original message and every fault rejected with Err (panic = violation). Caller-chosen buffer sizes: the classic copying forms and the classic stream pull additionally receive message buffers of L-1, L, L+1, L+15..L+17, L+64, wire length (+64) bytes for every message length 0..=48 (130 thorough) and 1024 under the control, every extension, every truncation and both edge bits of every byte; a tampered input must never yield Ok.",
    note="Trusted: libsodium's verdict on the same faulty input guards the harness. Box pk/sk bits are not flipped (clamped bits are no-ops); 2^-128 residual for key flips."),
  "C17": dict(
    engine="E-fault single-fault enumerator with buffer oracle (mc/src/c02.rs, mode leak; nightly build)", cat="fault_enumeration", ref="DESIGN.md §3 C17",
    technique="the C02 fault enumeration with a different oracle: after every failed open the caller-owned message buffer (sentinel-prefilled, or the submitted ciphertext for in-place forms) and the stream tag variable must be unchanged or all zero",
-   text="Same executions as C02 (every fault x every form); buffer and tag contents before/after each failing call are compared byte by byte.",
+   text="Same executions as C02 (every fault x every form); buffer and tag contents before/after each failing call are compared byte by byte (also for caller-chosen buffer sizes from L-1 to wire length + 64). Error-text oracle: within one base case, all failed opens of one form under one fault class and one submitted length must carry the same Display/Debug text (an error may name the failed check and lengths, never bytes derived from the rejected input).",
    note="Object-API forms own their buffers and can only return Err (checked as 'err-no-buffer')."),
  "C03": dict(
    engine="E-state (stateright 0.31) + E-prod sweep", cat="model_checking", ref="DESIGN.md §3 C03",
    technique="explicit-state model checking of the real push/pull/rekey code with stateright (BFS/DFS over all action histories up to a depth bound) in lockstep with libsodium, plus exhaustive length/AD/tag product sweep",
-   text="Every history over a ~31-action protocol alphabet (push with 2 lengths x AD x 4 tags, one- and two-sided rekeys, in-order delivery, 12 kinds of out-of-position/forged delivery) from 12 initial states (incl. counters at 0xfffffffe/0xffffffff) is executed on the real code up to depth 6 (quick) / deepest bound completed (thorough); every transition compares ciphertext bytes, both raw states and accept/reject verdict with libsodium and with a pre-state reference model; then every (state class, mlen, adlen, tag byte) cell is pushed and pulled once.",
+   text="Every history over a ~31-action protocol alphabet (push with 2 lengths x AD x 4 tags, one- and two-sided rekeys, in-order delivery, 12 kinds of out-of-position/forged delivery, Reinit = init_push/init_pull of a new key and header on the used State values) from 12 initial states (incl. counters at 0xfffffffe/0xffffffff) is executed on the real code up to depth 6 (quick) / deepest bound completed (thorough); every pull is additionally repeated into a roomy buffer (same verdict/message/state, nothing written past the message) and into too-small buffers (a refused pull must leave the state unchanged); every transition compares ciphertext bytes, both raw states and accept/reject verdict with libsodium and with a pre-state reference model; then every (state class, mlen, adlen, tag byte) cell is pushed and pulled once.",
    note="Trusted: libsodium 1.0.18 as reference; hook H1 installs raw (key, nonce) states; histories beyond the depth bound and byte values outside the alphabets are not covered."),
  "C04": dict(
    engine="E-prod + O-total (mc/src/c04.rs; nightly build): child processes, catch_unwind, counting allocator", cat="exploration", ref="DESIGN.md §3 C04",
    technique="bounded exhaustive enumeration of untrusted inputs by length and structural class for every consumer (every length x 5 content classes, every stream tag byte, a full grammar product of password-hash strings plus structural mutants), each call executed in a child process under catch_unwind with a counting allocator",
-   text="41 byte-string consumers (incl. heap/locked container parsers) x every length up to 2x overhead + 64 (+256) x 5 classes; 256 tag bytes x 3 lengths x 4 pull forms; ~243k password-hash strings; oracle: returns Ok or Err, no unwind/abort/signal, no single allocation above 16 MiB + 8x input.",
+   text="41 byte-string consumers (incl. heap/locked container parsers) x every length up to 2x overhead + 64 (+256) x 5 classes; 256 tag bytes x 3 lengths x 4 pull forms; ~250k password-hash strings incl. every memory cost m=8..=2100 KiB and cost fields at the edges of their integer types (parse/re-encode/needs_rehash only); oracle: returns Ok or Err, no unwind/abort/signal, no single allocation above 16 MiB + 8x input.",
    note="Contents within a length are represented by five classes; overflow checks are enabled in the harness build so wrapped arithmetic panics."),
  "C05": dict(
    engine="E-prod bounded product enumerator (mc/src/c05.rs)", cat="exploration", ref="DESIGN.md §3 C05",
@@ -38,7 +38,7 @@ CHECKS = {
  "C06": dict(
    engine="E-prod + E-fault (mc/src/c06.rs)", cat="fault_enumeration", ref="DESIGN.md §3 C06",
    technique="exhaustive product over seeds x message lengths x modes x APIs for signing (bytes == libsodium), and exhaustive single-fault enumeration for verification (every bit of message/signature/public key, complete S+kL family, complete small-order R x A table, non-canonical encodings, mode cross-over, truncations) with verdict equality against libsodium",
-   text="8 seeds x every length 0..=130 (600 thorough) x 4 contents x pure/combined/pre-hashed x classic/object API; 24 base signatures x ~1.7k faults each; accept/reject must equal libsodium's strict verifier and be reject for every mutation.",
+   text="8 seeds x every length 0..=130 (600 thorough) x 4 contents x pure/combined/pre-hashed x classic/object API; 24 base signatures x ~2k faults each incl. mixed-order points (A+T and R+T for every torsion point T x 24 messages, built with libsodium's group operations: strict and cofactored verification disagree on them); accept/reject must equal libsodium's strict verifier and be reject for every mutation.",
    note="Trusted: two references — libsodium 1.0.18 strict verification/signing in-process and a pure-Python RFC 8032 implementation (sign pure + pre-hashed, strict verify; ref/curve_check.py) over ~1.8k dumped cases."),
  "C07": dict(
    engine="E-prod (mc/src/c07.rs) + Python specification reference (ref/spec_check.py)", cat="exploration", ref="DESIGN.md §3 C07",
@@ -53,7 +53,7 @@ CHECKS = {
  "C09": dict(
    engine="E-prod parameter grids (mc/src/c09.rs)", cat="exploration", ref="DESIGN.md §3 C09",
    technique="bounded exhaustive enumeration of Argon2 parameter grids (every output length 16..=1100, every memory size 8..=129 KiB, passes 1..=6, password/salt lengths, both types, out-of-range rejects), each cell compared with libsodium's argon2_hash / crypto_pwhash",
-   text="Per-dimension exhaustive grids G1-G4 around a common centre plus the G1xG2 sub-product; object API hash_with_salt/verify incl. every single-byte password mutation.",
+   text="Per-dimension exhaustive grids G1-G4 around a common centre plus the G1xG2 sub-product; object API hash_with_salt/verify incl. every single-byte password mutation; Config builder: every sequence of <= 4 setter calls over an 8-member alphabet from each of the 4 base constructors (18 724 sequences) against the model 'last write to a field wins', hashes compared with libsodium wherever the cost is small; preset entry points hash_interactive/hash_with_defaults (thorough: hash_moderate, hash_sensitive).",
    note="Trusted: two references — libsodium's Argon2 (raw argon2_hash symbol, crypto_pwhash) in-process and a pure-Python Argon2 written from RFC 9106 (ref/argon2_check.py) over the sub-grid m <= 48 KiB, t <= 3 (~1.6k cells). Not a full cross-product of all dimensions (stated)."),
  "C10": dict(
    engine="E-prod (mc/src/c10.rs)", cat="exploration", ref="DESIGN.md §3 C10",
@@ -73,7 +73,7 @@ CHECKS = {
  "C13": dict(
    engine="E-prod (mc/src/c13.rs)", cat="exploration", ref="DESIGN.md §3 C13",
    technique="bounded exhaustive enumeration: every box seed length 0..=128 x content, the 32-byte seed alphabet for kx/sign/from_secret_key/ed->x conversion, password-derived pairs, each against libsodium's output or its construction evaluated with libsodium primitives",
-   text="516 box-seed cells, 41 (265 thorough) 32-byte seeds x 4 derivations, 8 password-derived pairs.",
+   text="516 box-seed cells, 41 (265 thorough) 32-byte seeds x 4 derivations, 8 password-derived pairs; in-place seed forms into pre-filled buffers; SigningKeyPair::from_secret_key on secret keys with a stale / zero / inverted public half (the pair must be the seed's pair and sign verifiably under its own public key).",
    note="Dishonest Ed25519 public keys are outside the quantifier."),
  "C14": dict(
    engine="E-state history-replay explorer on the real allocator and kernel (mc/src/pm.rs, nightly build)", cat="model_checking", ref="DESIGN.md §3 C14",
@@ -88,10 +88,10 @@ CHECKS = {
  "C16": dict(
    engine="E-prod (mc/src/c16.rs, nightly build so heap/locked containers are included)", cat="exploration", ref="DESIGN.md §3 C16",
    technique="bounded exhaustive enumeration: every object kind x payload length x container x codec round-trips and equals libsodium's layout; for every fixed-length container type every element count 0..=2N through 5 decoders and TryFrom must be refused unless exactly N",
-   text="4 message objects x lengths 0..=80 (300) x 6 codecs; 7 key objects x 5 keys x 2 codecs; 7 fixed-length types x counts 0..=2N x 5 decoders; heap/locked containers x lengths x 5 decoders.",
+   text="4 message objects x lengths 0..=80 (300) x 6 codecs; 7 key objects x 5 keys x 2 codecs; 7 fixed-length types x counts 0..=2N x 5 decoders; heap/locked containers x lengths x 5 decoders; password-hash objects and their Config for every salt length 8..=64 x 7 hash lengths x JSON/bincode/parts; the 4 preset Configs; slice-copying constructors with_data / with_data_and_mac; zero constructors of every fixed length.",
    note="Vec<u8> used as a fixed-length field type cannot enforce lengths at decode time (observation, not alarmed)."),
  "C18": dict(
-   engine="E-conf configuration matrix (mc/src/probe.rs built 3x, conf/c18.py)", cat="exploration", ref="DESIGN.md §3 C18",
+   engine="E-conf configuration matrix (mc/src/probe.rs built 4x, conf/c18.py)", cat="exploration", ref="DESIGN.md §3 C18",
    technique="bounded exhaustive enumeration of a shared corpus executed under every build configuration (stable default, nightly, nightly+simd_backend) with transcript equality for all pairs; container leg compares stack/Vec/heap/locked results inside the nightly builds",
    text="8 corpus sections (~0.68 M cases quick) x 3 configurations; section digests by libsodium SHA-512; first differing case reported on mismatch.",
    note="Third-party CPU-specific back-ends are not part of the configuration set."),
@@ -103,7 +103,7 @@ CHECKS = {
  "C20": dict(
    engine="E-prog program-table checker (typestate/check.py)", cat="model_checking", ref="DESIGN.md §3 C20",
    technique="model checking of a permission table (type-state x operation) against the compiler: one generated program per cell, exhaustive over the table; must-reject cells must fail with a capability-class rustc error, must-accept cells must compile and run in a forked child without faulting",
-   text="2 containers x 5 type-states x 21 operations + use-after/use-result for each consuming transition + 8 stream cells = 283 programs; rustc (nightly) verdict and error class per program; 170 permitted programs executed.",
+   text="2 containers x 5 type-states x 27 operations (incl. byte views through trait implementations: Serialize via JSON and bincode, Debug, PartialEq, to_vec, iter) + use-after/use-result for each consuming transition + 8 stream cells = 343 programs; rustc (nightly, features nightly+serde) verdict and error class per program; ~190 compiling programs executed in forked children.",
    note="Trusted: rustc as oracle; the table is written from the statement."),
 }
 
@@ -122,7 +122,7 @@ def main():
             "replay_cmd_template": "bin/check replay {path}",
             "engine": c["engine"],
             "level_claimed": {"category": c["cat"], "text": c["text"], "design_ref": c["ref"]},
-            "level_note": c["note"],
+            "level_note": c["note"] + ("" if pid in ("C18", "C20") else " Two build legs: the check first runs at quick-tier bounds in a plain release build of harness and crate (no debug assertions, no overflow checks: what a downstream --release build executes; a violation there ends the check), then at the requested tier in the checked build (overflow checks and debug assertions on); the plain leg's totals are embedded in the evidence as coverage.plain_release_leg.") + (" Four configurations since round 5: the three of the statement plus the nightly plain-release build." if pid == "C18" else ""),
             "technique": c["technique"],
         })
     na = [{"property_id": p, "reason": "check not built yet (work in progress); nothing is claimed for this property at this commit"} for p in ALL if p not in CHECKS]
@@ -142,7 +142,7 @@ def main():
         ],
         "checks": checks,
         "not_applicable": na,
-        "notes": "All checks rebuild the harness against /repo's working tree (cargo path dependency). Exit 0 pass, 1 VIOLATION, 2 machinery error. Known findings: /verif/known_findings.json.",
+        "notes": "All checks rebuild the harness against /repo's working tree (cargo path dependency), in up to four configurations (target-stable, target-nightly release + plain profile, target-simd). Exit 0 pass, 1 VIOLATION, 2 machinery error. Known findings: /verif/known_findings.json.",
     }
     json.dump(m, open(os.path.join(ROOT, "MANIFEST.json"), "w"), indent=1)
     print("wrote MANIFEST.json with", len(checks), "checks;", len(na), "not_applicable")
